@@ -34,13 +34,15 @@ import (
 )
 
 type c14pdCase struct {
-	ctor    string
-	ownKs   bool
-	sepDs   bool
-	ops     []string
-	closeAt int
-	conc2   bool
-	strat   int
+	ctor       string
+	ownKs      bool
+	sepDs      bool
+	ops        []string
+	closeAt    int
+	closeOp1   int // >0: Close follows the start of operation closeOp1-1 by closeDelay steps
+	closeDelay int
+	conc2      bool
+	strat      int
 }
 
 func c14pdRun(r *vfRand, c *c14pdCase, tr *zzc14.Trace) (*zzc14.Plan, string) {
@@ -107,7 +109,7 @@ func c14pdRun(r *vfRand, c *c14pdCase, tr *zzc14.Trace) (*zzc14.Plan, string) {
 		_ = d.Close()
 		_ = h.Close()
 	}
-	plan := &zzc14.Plan{Gate: gate, CloseAt: c.closeAt, Concurrent2: c.conc2, MaxSteps: 1500, Idle: 20 * time.Second, MaxIdle: 15, Final: final,
+	plan := &zzc14.Plan{Gate: gate, CloseAt: c.closeAt, CloseOp1: c.closeOp1, CloseDelay: c.closeDelay, Concurrent2: c.conc2, MaxSteps: 1500, Idle: 20 * time.Second, MaxIdle: 15, Final: final,
 		Pick: zzc14.PickBy(c.strat, r.Intn)}
 	if tr.Has("TCtorPanic") {
 		plan.Run(tr)
@@ -179,6 +181,9 @@ func c14pdGen(r *vfRand, i int) *c14pdCase {
 		c.closeAt = r.Intn(4 + 4*len(c.ops))
 	}
 	c.conc2 = r.Chance(30)
+	if len(c.ops) > 0 && r.Chance(55) {
+		c.closeOp1, c.closeDelay = 1+r.Intn(len(c.ops)), 1+r.Intn(4)
+	}
 	return c
 }
 
@@ -188,7 +193,7 @@ func TestVerifC14ProviderDual(t *testing.T) {
 	zzc14.StartClock()
 	seed := vfSeed()
 	n := vfEnvInt("VERIF_N", 40)
-	only := vfOnly()
+	only := zzc14.Only(8, vfOnly())
 	cs := vfNewCases("Run_C14", 50)
 	curDesc := map[string]any{}
 	zzc14.OnHang(func(label, stacks string) {
@@ -199,12 +204,12 @@ func TestVerifC14ProviderDual(t *testing.T) {
 	root := vfNewRand(seed)
 	for i := 0; i < n; i++ {
 		r := root.Fork()
-		if only >= 0 && i != only {
+		if only != -1 && i != only {
 			continue
 		}
 		c := c14pdGen(r, i)
-		desc := map[string]any{"case": i, "seed": seed, "pkg": "provider/dual", "comp": "provider-dual", "ctor": c.ctor, "ownKeystore": c.ownKs, "separateDatastores": c.sepDs,
-			"ops": c.ops, "closeAt": c.closeAt, "concurrent2": c.conc2, "strategy": c.strat}
+		desc := map[string]any{"case": zzc14.CaseID(8, i), "seed": seed, "pkg": "provider/dual", "comp": "provider-dual", "ctor": c.ctor, "ownKeystore": c.ownKs, "separateDatastores": c.sepDs,
+			"ops": c.ops, "closeAt": c.closeAt, "closeOp1": c.closeOp1, "closeDelay": c.closeDelay, "concurrent2": c.conc2, "strategy": c.strat}
 		curDesc = desc
 		tr := &zzc14.Trace{}
 		var plan *zzc14.Plan
